@@ -259,6 +259,36 @@ def make_cells(tier):
     cells.append(Cell("ins/chain", seq(), check_chain, lambda c: len(c["steps"]) >= 3 and nontrivial(c), classify,
                       quick=120, thorough=2500))
 
+    # long histories at IMU rate: the output is fed back as the next input for 40..300 steps with constant body-frame inputs, so
+    # the exact flow over the whole history is one oracle step of n * dt (semigroup); the quaternion must stay unit throughout
+    @st.composite
+    def long_seq(draw):
+        u = draw(inputs(strata=("tiny", "switch", "mid", "mid")))
+        u["dt"] = draw(st.sampled_from([1 / 400.0, 0.005, 0.01, 0.02, 1 / 3200.0]))
+        return {"x0": draw(state()), "u": u, "n": draw(st.sampled_from([40, 100, 300]))}
+
+    def check_long(case):
+        n, u = case["n"], case["u"]
+        require(n in (40, 100, 300) and 1e-5 <= u["dt"] <= 0.05)
+        x0 = x0_of(case["x0"])
+        x = x0.copy()
+        worst = 0.0
+        for k in range(n):
+            x = run_ins(x, u)
+            worst = max(worst, abs(float(np.linalg.norm(x[6:10])) - 1))
+        if worst > 1e-13 * n + 1e-12:
+            raise Violation("history of %d steps: the quaternion norm drifts from 1 by %.3e" % (n, worst), x0=x0.tolist(), u=u)
+        T = n * u["dt"]
+        with mp.workdps(DPS + 10):
+            p, v, Rm = oracle_step(mpv(x0[0:3]), mpv(x0[3:6]), mp_quat_R(x0[6:10]), u["a"], u["w"], u["g"], T)
+        sp, sv = scales(x0, u["a"], u["g"], T)
+        compare_state(x, p, v, Rm, sp * (1 + T), sv, "history of %d steps of %g s vs the exact flow over %g s" % (n, u["dt"], T), tol=2e-12 * n,
+                      x0=x0.tolist(), u=u)
+
+    cells.append(Cell("ins/long_history", long_seq(), check_long,
+                      lambda c: float(np.linalg.norm(c["u"]["w"])) * c["u"]["dt"] * c["n"] > 0.1 and float(np.linalg.norm(c["u"]["a"])) > 0,
+                      lambda c: ["n=%d" % c["n"]], quick=40, thorough=600))
+
     # exp_mixed called directly on other SE_2(3) parameterisations
     for gname, rep in (("SE23Mrp", "mrp"), ("SE23(Dcm)", "dcm")):
         gi = cy.registry()[gname]
